@@ -108,12 +108,17 @@ def _kf2(prop, f):
 
 def _glue_repair(node, kinds):
     """put a blank where KF8 / KF9 glue two tokens; returns the number of repairs"""
+    n = 0
+    for c in node.children:
+        n += _glue_repair(c, kinds)
+    return n + _glue_repair_one(node, kinds)
+
+
+def _glue_repair_one(node, kinds):
     import re
     from . import common
     T = common.impl().tree
     n = 0
-    for c in node.children:
-        n += _glue_repair(c, kinds)
     if "KF8" in kinds and isinstance(node, T.SearchField):
         text = node.expr.__str__(head_tail=True)
         if re.search(r"T\d\d$", node.name) and re.match(r"\d\d", text):
@@ -200,5 +205,9 @@ def _explained(fid):
     return f
 
 
-for _fid in ("KF3", "KF4", "KF5"):
+for _fid in ("KF3", "KF4", "KF5", "KF6", "KF7"):
     CLASSIFIERS[_fid] = _explained(_fid)
+
+_kf8_tree, _kf9_tree = CLASSIFIERS["KF8"], CLASSIFIERS["KF9"]
+CLASSIFIERS["KF8"] = lambda prop, f: _explained("KF8")(prop, f) or _kf8_tree(prop, f)
+CLASSIFIERS["KF9"] = lambda prop, f: _explained("KF9")(prop, f) or _kf9_tree(prop, f)
